@@ -46,6 +46,8 @@ Ents == [
   inner  |-> E("s_pub", "public", TRUE, "proc"),         \* internal procedure of s_pub
   g_pub  |-> E("m", "public", TRUE, "interface"),
   ai_prv |-> E("m", "private", TRUE, "absint"),
+  en_pub |-> E("m", "public", TRUE, "var"),              \* enumerators of an ENUM in m: entities with an accessibility like any
+  en_prv |-> E("m", "private", TRUE, "var"),             \* other named constant (F2018 7.6); en_prv is in a PRIVATE statement
   nl_prv |-> E("s_prv", "public", TRUE, "namelist"),      \* namelist group of the private procedure
   t_ext  |-> E("m", "public", TRUE, "type"),              \* public type that extends the private type t_prv (and inherits its binding)
   mpi    |-> E("m", "public", TRUE, "interface"),        \* interface of the separate module procedure mp, declared in m
